@@ -42,6 +42,14 @@ func c09Gen(t *rapid.T) vPipeCase {
 		c.Streams = append(c.Streams, s)
 	}
 	c.Pulses = vGenPulses(t, c.Nchan, c.Nsamp, c.Blocks, 10)
+	if rapid.IntRange(0, 3).Draw(t, "emptyblocks") == 0 && len(c.Blocks) >= 2 {
+		// now and then the source delivers a block without samples
+		c.EmptyBlocks = true
+		for k := rapid.IntRange(1, 3).Draw(t, "nempty"); k > 0; k-- {
+			at := rapid.IntRange(1, len(c.Blocks)).Draw(t, "emptyat")
+			c.Blocks = append(c.Blocks[:at:at], append([]int{0}, c.Blocks[at:]...)...)
+		}
+	}
 	// trigger settings: some channels off, some edge, some auto, sometimes only a subset configured after a fresh start
 	mode := rapid.IntRange(0, 5).Draw(t, "cfgmode")
 	for ch := 0; ch < c.Nchan; ch++ {
